@@ -336,4 +336,86 @@ theorem translate_format_self (F : List MNode) (extra : List Str)
   rw [coalesce, this, (Yv_firstSeg _ _ hc' hb).2]
   simp [segEvents, coalGo, flushText]
 
+
+/-! ### MsgDirective.__call__ under the identity catalogue -/
+
+theorem dropLast_append_last {α} : ∀ (rest : List α) (last : α), rest.getLast? = some last →
+    rest = rest.dropLast ++ [last]
+  | [], _, hl => by simp at hl
+  | [x], last, hl => by simp at hl; simp [hl]
+  | x :: y :: ys, last, hl => by
+      rw [List.getLast?_cons_cons] at hl
+      have := dropLast_append_last (y :: ys) last hl
+      simp only [List.dropLast_cons_cons, List.cons_append]
+      rw [← this]
+
+/-- attribute form: `<p i18n:msg="…">content</p>` -/
+theorem msgGenerate_identity_attr (t : QName) (a : TAttrs) (F : List MNode) (extra : List Str)
+    (hc : cleanM F = true) (hna : deepNoAdjM F = true) (hnd : (namesM F).Nodup) :
+    msgGenerate (namesM F ++ extra) (fun s => s) (.start t a :: (flattenM F ++ [.end_ t])) =
+      .ok (.start t a :: (coalesce (flattenM (trimF F)) ++ [.end_ t])) := by
+  obtain ⟨b, hrun, htr⟩ := translate_format_self F extra hc hna hnd
+  simp only [msgGenerate, msgBuffer, TEvent.isStart, ↓reduceIte, List.getLast?_append, List.getLast?_singleton,
+    Option.some_or, List.dropLast_concat, TEvent.isEnd, bind, Except.bind, pure, Except.pure, hrun, htr]
+  simp
+
+theorem msgBuffer_plain (ps : List Str) (first : TEvent) (rest : List TEvent)
+    (h1 : first.isStart = false) (h2 : ((first :: rest).getLast?.map TEvent.isEnd) = some false) :
+    msgBuffer ps (first :: rest) = (mbAppendList (MB.new ps) (first :: rest)).map (fun b => (b, [], [])) := by
+  simp only [msgBuffer, h1, Bool.false_eq_true, ↓reduceIte, mbAppendList, bind]
+  cases hb0 : mbAppend (MB.new ps) first with
+  | error e => simp [Except.bind, Except.map]
+  | ok b0 =>
+    simp only [Except.bind]
+    cases hl : rest.getLast? with
+    | none =>
+      have : rest = [] := by simpa using hl
+      subst this
+      simp [mbAppendList, Except.map, pure, Except.pure]
+    | some last =>
+      have hrest : rest = rest.dropLast ++ [last] := dropLast_append_last rest last hl
+      have hlast : last.isEnd = false := by
+        have hne : rest ≠ [] := by intro h; subst h; simp at hl
+        have : (first :: rest).getLast? = some last := by rw [List.getLast?_cons_of_ne_nil hne]; exact hl
+        rw [this] at h2; simpa using h2
+      simp only [hlast, Bool.false_eq_true, ↓reduceIte]
+      conv => rhs; rw [hrest, mbAppendList_append]
+      cases mbAppendList b0 rest.dropLast with
+      | error e => simp [Except.bind, Except.map]
+      | ok b1 =>
+        simp only [Except.bind, mbAppendList_single]
+        cases mbAppend b1 last <;> simp [Except.map, pure, Except.pure]
+
+def MNode.isElem : MNode → Bool
+  | .elem _ _ _ => true
+  | _ => false
+
+theorem flatten_head_not_start : ∀ (n : MNode), n.isElem = false → ∃ e, n.flatten = [e] ∧ e.isStart = false ∧ e.isEnd = false
+  | .text s, _ => ⟨.text s, rfl, rfl, rfl⟩
+  | .expr _ i cm, _ => ⟨.expr i cm, rfl, rfl, rfl⟩
+  | .elem _ _ _, h => by simp [MNode.isElem] at h
+
+/-- element form: `<i18n:msg params="…">content</i18n:msg>`, the content neither starting nor
+    ending with an element (else: finding C19-msg-element-first-child) -/
+theorem msgGenerate_identity_elem (n : MNode) (mid : List MNode) (l : MNode) (extra : List Str)
+    (hn : n.isElem = false) (hl : l.isElem = false)
+    (hc : cleanM (n :: (mid ++ [l])) = true) (hna : deepNoAdjM (n :: (mid ++ [l])) = true)
+    (hnd : (namesM (n :: (mid ++ [l]))).Nodup) :
+    msgGenerate (namesM (n :: (mid ++ [l])) ++ extra) (fun s => s) (flattenM (n :: (mid ++ [l]))) =
+      .ok (coalesce (flattenM (trimF (n :: (mid ++ [l]))))) := by
+  obtain ⟨b, hrun, htr⟩ := translate_format_self (n :: (mid ++ [l])) extra hc hna hnd
+  obtain ⟨e1, he1, hs1, _⟩ := flatten_head_not_start n hn
+  obtain ⟨e2, he2, _, hend2⟩ := flatten_head_not_start l hl
+  have hflat : flattenM (n :: (mid ++ [l])) = e1 :: (flattenM mid ++ [e2]) := by
+    have : ∀ (xs ys : List MNode), flattenM (xs ++ ys) = flattenM xs ++ flattenM ys := by
+      intro xs ys; induction xs with
+      | nil => simp [flattenM]
+      | cons x xs ih => simp [flattenM, ih, List.append_assoc]
+    simp [flattenM, he1, this, he2]
+  rw [hflat] at hrun ⊢
+  have hb := msgBuffer_plain (namesM (n :: (mid ++ [l])) ++ extra) e1 (flattenM mid ++ [e2]) hs1
+    (by simp [List.getLast?_cons_of_ne_nil, hend2])
+  simp only [msgGenerate, hb, hrun, Except.map, bind, Except.bind, htr, pure, Except.pure]
+  simp
+
 end Genshi.I18n
